@@ -159,7 +159,7 @@ impl Scenario for C09 {
                     }
                     2 => {
                         pool.push(Delivery { seq: si as u32, frag: id, ..Default::default() });
-                        pool.push(Delivery { seq: si as u32, frag: *r.pick(&[0u64, u64::from(s.n) + 1, 1 << 63, u64::MAX]), ..Default::default() });
+                        pool.push(Delivery { seq: si as u32, frag: *r.pick(&[0u64, u64::from(s.n) + 1, 1 << 63, u64::MAX, (1u64 << 32) + id, (3u64 << 32) + id, (1u64 << 16) + id, (1u64 << 8) + id]), ..Default::default() });
                     }
                     _ => pool.push(Delivery { seq: si as u32, frag: id, ..Default::default() }),
                 }
@@ -217,12 +217,12 @@ impl Scenario for C09 {
 
     fn info(&self) -> Info {
         Info {
-            rule: "one run = 1..4 sequences (arbitrary 64-bit ids; message of 0..300 bytes cut at seeded positions into 1..8 fragments numbered N..1 as the protocol prescribes, header = fragment N) put on an unordered channel: seeded delivery permutation, duplicates, drops, out-of-range ids (0, N+1, 2^63, 2^64-1), simulated time passing between deliveries up to beyond the expiry timeout, cleanup_expired calls; or (kind reuse) 2..4 messages one after the other on the same sequence id, each in a seeded arrival order with duplicates while incomplete; or (kind permutations) every one of the N! arrival orders of one sequence, N <= 5 (6 thorough), counted in counters.c09.orders_enumerated. Reference model = per sequence the set of ids seen + whether the header was seen + last update time. Non-trivial = more than one fragment; distinct = distinct event log.",
+            rule: "one run = 1..4 sequences (arbitrary 64-bit ids; message of 0..300 bytes cut at seeded positions into 1..8 fragments numbered N..1 as the protocol prescribes, header = fragment N) put on an unordered channel: seeded delivery permutation, duplicates, drops, out-of-range ids (0, N+1, 2^63, 2^64-1, and valid ids plus a multiple of 2^8, 2^16, 2^32), simulated time passing between deliveries up to beyond the expiry timeout, cleanup_expired calls; or (kind reuse) 2..4 messages one after the other on the same sequence id, each in a seeded arrival order with duplicates while incomplete; or (kind permutations) every one of the N! arrival orders of one sequence, N <= 5 (6 thorough), counted in counters.c09.orders_enumerated. Reference model = per sequence the set of ids seen + whether the header was seen + last update time. Non-trivial = more than one fragment; distinct = distinct event log.",
             components_real: &["edp_client::fragmentation::FragmentAssembler (start_fragment, add_fragment, cleanup_expired, pending_count)", "tokio paused clock behind Instant (hook H5)"],
             components_stubbed: &["the unordered, duplicating, dropping channel (simulator)", "decode_fragment_header/cont and Connection::receive_message are not in this loop (see C06)"],
-            assumptions: &["a result equal to the ascending-fragment-id concatenation but different from the original message is classified separately (order-ascending-id) from any other wrong result"],
+            assumptions: &["FragmentAssembler::new() and ::default() both mean the documented 30 s timeout", "a result equal to the ascending-fragment-id concatenation but different from the original message is classified separately (order-ascending-id) from any other wrong result"],
             fault_prefixes: &["fault."],
-            expected_probes: &["probe.c09.completed", "probe.c09.completed_header_last", "probe.c09.completed_header_first", "probe.c09.duplicate_ignored", "probe.c09.out_of_range_ignored", "probe.c09.expired_removed", "probe.c09.incomplete_stays_pending", "probe.c09.interleaved_sequences", "probe.c09.reused_id_completed", "probe.c09.reused_id_continuation_first", "probe.c09.late_duplicate_after_completion"],
+            expected_probes: &["probe.c09.completed", "probe.c09.completed_header_last", "probe.c09.completed_header_first", "probe.c09.duplicate_ignored", "probe.c09.out_of_range_ignored", "probe.c09.expired_removed", "probe.c09.incomplete_stays_pending", "probe.c09.interleaved_sequences", "probe.c09.reused_id_completed", "probe.c09.reused_id_continuation_first", "probe.c09.late_duplicate_after_completion", "probe.c09.built_with_new", "probe.c09.built_with_default"],
         }
     }
 }
@@ -356,7 +356,18 @@ fn classify(w: &Arc<World>, s: &SeqSpec, got: &[u8], context: &str) {
 }
 
 async fn channel(w: &Arc<World>, p: &Plan) {
-    let mut asm = FragmentAssembler::with_timeout(Duration::from_millis(p.timeout_ms));
+    // the documented default (30 s) can be asked for in three ways
+    let mut asm = match (p.timeout_ms, p.salt % 3) {
+        (30_000, 1) => {
+            w.stat("probe.c09.built_with_new");
+            FragmentAssembler::new()
+        }
+        (30_000, 2) => {
+            w.stat("probe.c09.built_with_default");
+            FragmentAssembler::default()
+        }
+        _ => FragmentAssembler::with_timeout(Duration::from_millis(p.timeout_ms)),
+    };
     let mut model: BTreeMap<u32, ModelRec> = BTreeMap::new();
     let mut seen_seqs = BTreeSet::new();
     let mut completed_once: BTreeSet<u32> = BTreeSet::new();
